@@ -27,7 +27,7 @@ def run(ctx, rep):
                          "ts' = ts.checked_add(span.only_time())?; Ok(ts'.to_zoned(tz.clone())) with tz = self.time_zone(); the shortcut "
                          "and checked_add_duration are self.timestamp().checked_add(arg) mapped through to_zoned(self.time_zone()); "
                          "checked_sub negates and delegates to checked_add; start_of_day = civil midnight of datetime() resolved in tz, with the transition instant when midnight is in a gap; "
-                         "end_of_day resolves Gap->after, Fold->after")
+                         "end_of_day resolves the civil end of the day; Gap -> last instant before the transition that made the gap; Fold -> after")
     f = prog.jiff("zoned::Zoned::checked_add_span")
     r = Terms(f).returns()
     span = V("span")
@@ -107,17 +107,34 @@ def run(ctx, rep):
                       "gap at midnight with the instant of the zone transition from the transition iterator (found: %s) and use the "
                       "compatible strategy otherwise (found: %s): shifting midnight by the length of the gap is the first instant of the "
                       "day only when the gap starts at 00:00" % (midnight, gap_arm, compat), f.loc())
+    # end_of_day, the mirror image: 23:59:59.999999999 of datetime() resolved in the zone, a fold answered with the later
+    # instant (`after`), and - when that civil time is in a gap - the last instant BEFORE the transition that made the gap
+    # (taken from the transition iterator), not the civil time read with one of the two offsets: `after` applied to
+    # 23:59:59.999999999 is the end of the day only if the gap starts at least its own length before midnight
     f = prog.jiff("zoned::Zoned::end_of_day")
-    r = Terms(f).returns()
+    T = Terms(f)
+    cfg = mir.CFG(f)
+    last = any(is_call(T.at_call(bi, t, 1), "DateTime::end_of_day") and is_call(T.at_call(bi, t, 1)[2][0], "Zoned::datetime")
+               for bi, t in mir.iter_calls(f) if t.get("path", "").endswith("TimeZone::to_ambiguous_timestamp"))
+    gap_arm = False
+    for bi, t in mir.iter_calls(f):
+        if t.get("path", "").endswith(("TimeZone::preceding", "TimeZone::previous_transition", "TimeZone::following", "TimeZone::next_transition")):
+            for (c, truth, _sb) in guards(f, cfg, T, bi):
+                if c[0] == "disc" and any(is_call(x, "AmbiguousTimestamp::offset") for x in walk(c)) and isinstance(truth, tuple) \
+                        and truth[0] == "eq" and truth[1] == [gap_v]:
+                    gap_arm = True
     sel = set()
-    dt_ok = False
-    if is_call(r, "::map") and is_call(r[2][0], "Offset::to_timestamp"):
-        off, dt = r[2][0][2]
-        dt_ok = match(dt, C("DateTime::end_of_day", C("Zoned::datetime", SELF))) is not None
-        for a in alts(off):
-            if a[0] == "field" and a[1][0] == "variant":
-                sel.add((a[1][2], a[2]))
-    if sel == {("Gap", "after"), ("Fold", "after"), ("Unambiguous", "offset")} and dt_ok:
-        rep.ok("PIPELINE", "Zoned::end_of_day", how=str(sorted(sel)))
+    for bi, t in mir.iter_calls(f):
+        if t.get("path", "").endswith("Offset::to_timestamp"):
+            for a in alts(T.at_call(bi, t, 0)):
+                if a[0] == "field" and a[1][0] == "variant":
+                    sel.add((a[1][2], a[2]))
+    fold_ok = ("Fold", "after") in sel and ("Fold", "before") not in sel and ("Unambiguous", "offset") in sel
+    if last and gap_arm and fold_ok:
+        rep.ok("PIPELINE", "Zoned::end_of_day", how="civil 23:59:59.999999999 resolved in the zone; Gap arm takes the instant before the transition; Fold -> after")
     else:
-        rep.violation("PIPELINE", "Zoned::end_of_day", "end_of_day selects %s (civil end_of_day used: %s)" % (sorted(sel), dt_ok), f.loc())
+        rep.violation("PIPELINE", "Zoned::end_of_day", "end_of_day must resolve the civil end of datetime()'s day in the zone (found: %s), answer a gap "
+                      "at that time with the last instant before the zone transition, from the transition iterator (found: %s), and a "
+                      "fold with the later instant (offsets selected: %s): reading 23:59:59.999999999 with the offset after the gap gives an "
+                      "instant that is earlier by the part of the gap that lies after midnight (1919-03-30 in America/Toronto, 23:30 -> "
+                      "00:30: 22:59:59.999999999 instead of 23:29:59.999999999)" % (last, gap_arm, sorted(sel)), f.loc())
